@@ -168,11 +168,13 @@ pub fn synth(venue: Venue, futures: bool, market: &str, channel: &str, rng: &mut
             let (p, a) = (dec_text(rng, 9, 8), dec_text(rng, 9, 8));
             let maker = rng.bool();
             let id = rng.below(1 << 40);
+            // "E" is when the venue pushed the event, "T" when the trade happened: the trade time is what is stated
+            let e = t + rng.range(1, 9);
             let text = if futures {
-                format!(r#"{{"e":"trade","E":{t},"T":{t},"s":{m},"t":{id},"p":"{p}","q":"{a}","X":"MARKET","m":{maker}}}"#)
+                format!(r#"{{"e":"trade","E":{e},"T":{t},"s":{m},"t":{id},"p":"{p}","q":"{a}","X":"MARKET","m":{maker}}}"#)
             } else {
                 format!(
-                    r#"{{"e":"trade","E":{t},"s":{m},"t":{id},"p":"{p}","q":"{a}","b":{},"a":{},"T":{t},"m":{maker},"M":true}}"#,
+                    r#"{{"e":"trade","E":{e},"s":{m},"t":{id},"p":"{p}","q":"{a}","b":{},"a":{},"T":{t},"m":{maker},"M":true}}"#,
                     rng.below(1 << 40),
                     rng.below(1 << 40)
                 )
@@ -185,8 +187,9 @@ pub fn synth(venue: Venue, futures: bool, market: &str, channel: &str, rng: &mut
             let (mut bp, mut ba, mut ap, mut aa) = (dec_text(rng, 9, 8), dec_text(rng, 9, 8), dec_text(rng, 9, 8), dec_text(rng, 9, 8));
             one_sided(rng, &mut bp, &mut ba, &mut ap, &mut aa);
             let u = rng.below(1 << 40);
+            let e = t + rng.range(1, 9);
             let text = if futures {
-                format!(r#"{{"e":"bookTicker","u":{u},"E":{t},"T":{t},"s":{m},"b":"{bp}","B":"{ba}","a":"{ap}","A":"{aa}"}}"#)
+                format!(r#"{{"e":"bookTicker","u":{u},"E":{e},"T":{t},"s":{m},"b":"{bp}","B":"{ba}","a":"{ap}","A":"{aa}"}}"#)
             } else {
                 format!(r#"{{"u":{u},"s":{m},"b":"{bp}","B":"{ba}","a":"{ap}","A":"{aa}"}}"#)
             };
@@ -235,8 +238,9 @@ pub fn synth(venue: Venue, futures: bool, market: &str, channel: &str, rng: &mut
             let (p, a) = (dec_text(rng, 9, 8), dec_text(rng, 9, 8));
             let buy = rng.bool();
             let side = if buy { "BUY" } else { "SELL" };
+            let e = t + rng.range(1, 9);
             let text = format!(
-                r#"{{"e":"forceOrder","E":{t},"o":{{"s":{m},"S":"{side}","o":"LIMIT","f":"IOC","q":"{a}","p":"{p}","ap":"{}","X":"FILLED","l":"{a}","z":"{a}","T":{t}}}}}"#,
+                r#"{{"e":"forceOrder","E":{e},"o":{{"s":{m},"S":"{side}","o":"LIMIT","f":"IOC","q":"{a}","p":"{p}","ap":"{}","X":"FILLED","l":"{a}","z":"{a}","T":{t}}}}}"#,
                 dec_text(rng, 9, 8)
             );
             let ev = ExpEvent { time_ns: Some(t * 1_000_000), time_tol_ns: 0, body: ExpBody::Liq { price: p, qty: a, buy } };
@@ -276,18 +280,22 @@ pub fn synth(venue: Venue, futures: bool, market: &str, channel: &str, rng: &mut
             let n = if rng.chance(1, 8) { rng.range_u(20, 40) } else { rng.range_u(1, 3) };
             let mut items = Vec::new();
             let mut evs = Vec::new();
+            // every trade carries its OWN fill time "T"; the envelope's "ts" is when the venue pushed the message
+            let mut fill_t = t;
             for _ in 0..n {
                 let (p, a) = (dec_text(rng, 9, 8), dec_text(rng, 9, 8));
                 let buy = rng.bool();
+                fill_t += rng.range(0, 3);
                 items.push(format!(
-                    r#"{{"T":{t},"s":{m},"S":"{}","v":"{a}","p":"{p}","L":"PlusTick","i":"{}","BT":false}}"#,
+                    r#"{{"T":{fill_t},"s":{m},"S":"{}","v":"{a}","p":"{p}","L":"PlusTick","i":"{}","BT":false}}"#,
                     if buy { "Buy" } else { "Sell" },
                     uuid(rng)
                 ));
-                evs.push(trade(&p, &a, buy, Some(t * 1_000_000), 0));
+                evs.push(trade(&p, &a, buy, Some(fill_t * 1_000_000), 0));
             }
             let topic = q(&format!("{channel}.{market}"));
-            (format!(r#"{{"topic":{topic},"type":"snapshot","ts":{t},"data":[{}]}}"#, items.join(",")), evs)
+            let ts = fill_t + rng.range(1, 9);
+            (format!(r#"{{"topic":{topic},"type":"snapshot","ts":{ts},"data":[{}]}}"#, items.join(",")), evs)
         }
         Venue::Coinbase => {
             let us = ms(rng) * 1000 + rng.range(0, 999);
